@@ -185,7 +185,8 @@ Proof.
   unfold live. f_equal. rewrite <- (Permutation_length P), map_length. reflexivity.
 Qed.
 
-(* a refused redefinition leaves the store (and the ledger) as it was *)
+(* a refused redefinition leaves the store (and the ledger) as it was; the symbol and compound overloads have made and
+   released their copy by then, so only the fresh-address counter moved *)
 Definition same_store (s s' : st) : Prop :=
   terms s' = terms s /\ nterms s' = nterms s /\ elems s' = elems s /\ nelems s' = nelems s /\ atoms s' = atoms s /\
   fatom s' = fatom s /\ fterm s' = fterm s /\ felem s' = felem s /\ cells (hp s') = cells (hp s).
@@ -193,14 +194,17 @@ Definition same_store (s s' : st) : Prop :=
 Theorem redefinition_refused s id :
   Inv s -> 0 <= id -> isNewTerm s id = true ->
   (forall n, step s (OAddNum id n) = (EC_REDEF_TERM, s)) /\
-  (forall b, step s (OAddSym id b) = (EC_REDEF_TERM, s)) /\
+  (forall b, fst (step s (OAddSym id b)) = EC_REDEF_TERM /\ same_store s (snd (step s (OAddSym id b)))) /\
   (forall base args, fst (step s (OAddComp id base args)) = EC_REDEF_TERM /\ same_store s (snd (step s (OAddComp id base args)))).
 Proof.
   intros I Hid Hn.
   destruct (setTerm_spec s id I Hid) as [[_ E]|[Hf _]]; [|congruence].
   split; [|split].
   - intro n. simpl. unfold addTermNum. rewrite E. reflexivity.
-  - intro b. simpl. unfold addTermSym. rewrite E. reflexivity.
+  - intro b. cbn [step]. rewrite addTermSym_unfold. destruct (I_next s I) as [_ Na].
+    rewrite (mk_ptr_ok _ _ Na), (setTerm_alloc s id _ I), E.
+    change K_SYM with (kind (OSym b)). rewrite (hfree_alloc _ _ (next_fresh s I)).
+    split; [reflexivity|]. unfold same_store. simpl. repeat split; reflexivity.
   - intros base args. cbn [step]. rewrite addTermComp_unfold. destruct (I_next s I) as [_ Na].
     rewrite (mk_ptr_ok _ _ Na), (setTerm_alloc s id _ I), E.
     change K_FUNC with (kind (OFunc base args)). rewrite (hfree_alloc _ _ (next_fresh s I)).
